@@ -315,6 +315,12 @@ def index(v, idx):
                 cache[key].item_of = (v, idx)
             return cache[key]
         f = z3.Function("item_of", PyObj, z3.IntSort(), PyObj)
+        if isinstance(idx, int):
+            cache = v.__dict__.setdefault("_items", {})
+            if ("int", idx) not in cache:
+                cache[("int", idx)] = Opaque(f"{v.tag}[{idx}]", f(v.term, to_z3(idx)))
+                cache[("int", idx)].item_of = (v, idx)
+            return cache[("int", idx)]
         return Opaque(v.tag + "_item", f(v.term, to_z3(idx)))
     raise Unsupported(f"subscript of {v!r}")
 
